@@ -108,7 +108,7 @@ def emit_setters(R):
     return "\n".join(outs) + "\n", info
 
 
-def emit_main(R):
+def emit_main(R, loop_contract=None):
     """ParticleSwarm: everything after the definition of the two lambdas (cache set-up, update(), the iteration loop).  The lambdas are called through
     stubs (their own contracts: F19, F20).  Rule R14b: the first test inside the iteration loop (the choice between the update with and without the
     social term) is wrapped in tsg_mode(), which compares the value tested with the swarm-best flag of the state at that moment."""
@@ -148,6 +148,12 @@ def emit_main(R):
     R.require({"R7-lambda-call": 4, "R5-local-vector": 1, "R8-callback": 2})
     line = p.line + (p.header + p.body[:start]).count('\n')
     chdr = "void ParticleSwarm_main(int num_iterations, double inertia_weight, double cognitive_coeff, double social_coeff, ParticleSwarmState *state)"
+    if loop_contract:
+        sites = X.loop_sites(b)
+        k0 = [i for i, st in enumerate(sites) if re.match(r'for\s*\(\s*int\s+iter\b', b[st[2]:])]
+        if len(k0) != 1:
+            raise X.ExtractionBreak("ParticleSwarm: iteration loop not located for its loop contract")
+        b = X.splice("", b, None, {k0[0]: loop_contract})
     out = '#line %d "%s"\n%s{ size_t num_dimensions = (size_t) state->num_dimensions; size_t num_particles = (size_t) state->num_particles;\n%s}\n' % (line, X.REPO + "/" + p.rel, chdr, b)
     info = {"functions": [{"name": "ParticleSwarm (cache set-up and iteration loop, after the lambdas)", "file": p.rel, "line": line, "loops": X.count_loops(b)}],
             "fidelity": X.fidelity(src, b, extra_vocab=["state", "f_constrained", "update", "rng_cache", "vector", "auto", "r", "get_random01", "static_cast", "pragma", "omp", "parallel", "for",
